@@ -1,16 +1,18 @@
 --------------------------- MODULE Trace_WsEndpoint ---------------------------
 (* Code -> spec direction for C11.  Every line of the ndjson file IOEnv.TRACE is one connection run
    by the harness (bin wsendpoint) against a real humphrey App + humphrey_ws::websocket_handler:
-     {"c": n, "mode": "blocking"|"nonblocking", "echo": bool, "ev": [event, ...]}
+     {"c": n, "mode": "blocking"|"nonblocking", "echo": bool, "pre": "none"|"poll"|"pollpush", "push": payload,
+      "ev": [event, ...]}
    with the events in the order in which they were appended to the connection's log (one mutex):
      hs      key/haskey, status, accept (from the 101 answer), want (Base64(SHA-1(key ++ GUID)),
              computed by an independent implementation in the harness)
      cframe  the client is about to write a frame (op, fin, pay, cuts) - logged BEFORE its first piece
      cpiece  the client is about to write the next piece, up to stream offset `upto`
      cshut   the client is about to shut down its sending side
-     call    the handler is about to call recv / recv_nonblocking; avail = FIONREAD just before
+     call    the handler is about to call recv (nb false) / recv_nonblocking (nb true); avail = FIONREAD just before
      ret     what the call returned: kind msg (text, pay) | none | closed | error
      send    the handler sent a message (text, pay) with WebsocketStream::send
+     push    the handler's preamble sent its own binary message (pay) right after its empty poll; ok = send returned Ok
      drop    the handler is about to return (the stream is dropped)
      out     everything the reference client read after the 101 answer, parsed as frames, and how the
              stream ended (logged last)
@@ -62,11 +64,12 @@ Logged ==
      ELSE IF E.e = "cframe" THEN Cli_StartFrame([op |-> E.op, fin |-> E.fin, pay |-> E.pay], ToSet(E.cuts))
      ELSE IF E.e = "cpiece" THEN Cli_Piece /\ sentB' = E.upto
      ELSE IF E.e = "cshut" THEN Cli_Shut
-     ELSE IF E.e = "call" THEN Srv_CallRecvObs(E.avail)
+     ELSE IF E.e = "call" THEN Srv_CallRecvObs(E.avail) /\ cm' = (IF E.nb THEN "nonblocking" ELSE "blocking")
      ELSE IF E.e = "ret" THEN RetStep
      ELSE IF E.e = "send" THEN
           /\ E.ok /\ echoq # <<>> /\ echoq[1] = [text |-> E.text, pay |-> E.pay]
           /\ Srv_Send
+     ELSE IF E.e = "push" THEN E.ok /\ E.pay = pushpay /\ Srv_Push
      ELSE IF E.e = "drop" THEN Srv_Drop
      ELSE IF E.e = "out" THEN OutMatches /\ UNCHANGED vars
      ELSE FALSE
@@ -78,7 +81,7 @@ Silent ==
 
 TInit == \E c \in 1..Len(Rec) :
             /\ case = c /\ l = 1 /\ TLCSet(c, 1)
-            /\ InitWith(Rec[c].mode, Rec[c].echo)
+            /\ InitWith(Rec[c].mode, Rec[c].echo, Rec[c].pre, Rec[c].push)
 TNext == Logged \/ Silent
 
 \* CONSTRAINT with a side effect: remember how far each connection got
